@@ -426,3 +426,72 @@ mutant('B5-anchor-read-inside-scope', ['C07'], [
 mutant('N2-validate-drops-beneficiary-invalidate', ['C07', 'C02'], [
     (S, "            if !beneficiary.invalidate(&tx_version) {\n                self.abort(AbortReason::ParallelError {\n                    txid,\n                    message: \"stale beneficiary history validation\",\n                });\n                return None;\n            }\n", ""),
 ], ['|N2|'])
+
+IN = 'src/delegated_safety/instructions.rs'
+HD = 'src/delegated_safety/handler.rs'
+RS = 'src/delegated_safety/reserve.rs'
+EX = 'src/scheduler/executor.rs'
+mutant('Q1-guard-checks-caller-not-target', ['C12'], [
+    (IN, "let recipient = context.interpreter.input.target_address();", "let recipient = context.interpreter.input.caller_address();"),
+], ['|Q1|'])
+mutant('Q1-delegated-create-allowed-when-warm', ['C12'], [
+    (IN, "if load.is_delegate_account_cold.is_some() {", "if load.is_delegate_account_cold == Some(true) {"),
+], ['|Q1|'])
+mutant('Q1-guard-before-static-check', ['C12'], [
+    (IN, "    if context.interpreter.runtime_flag.is_static() {\n        return Err(InstructionResult::StateChangeDuringStaticCall)\n    }\n\n", ""),
+], ['|Q1|'])
+mutant('Q2-swapped-opcode-pairing', ['C12'], [
+    (IN, "instructions.insert_instruction(CREATE, Instruction::new(guarded_create::<false, _, _>), 0);\n    instructions.insert_instruction(CREATE2, Instruction::new(guarded_create::<true, _, _>), 0);", "instructions.insert_instruction(CREATE, Instruction::new(guarded_create::<true, _, _>), 0);\n    instructions.insert_instruction(CREATE2, Instruction::new(guarded_create::<false, _, _>), 0);"),
+], ['|Q2|'])
+mutant('Q1-create2-calls-create', ['C12'], [
+    (IN, "    contract::create::<IS_CREATE2, WIRE, H>(context)", "    contract::create::<false, WIRE, H>(context)"),
+], ['|Q1|'])
+mutant('Q3-table-swapped-before-prague', ['C12'], [
+    (EX, "    if forbid_delegated_create && spec.is_enabled_in(revm_primitives::hardfork::SpecId::PRAGUE) {", "    if forbid_delegated_create {"),
+    ('src/scheduler.rs', "        config.delegated_safety = config.delegated_safety.for_spec(cfg.spec);\n", ""),
+], ['|Q3|'])
+mutant('H1-enforce-reserve-after-beneficiary', ['C13'], [
+    (HD, """        if let Some(reserve_result_gas) = self.enforce_reserve(
+            evm,
+            exec_result,
+            execution_gas,
+            init_and_floor_gas,
+            eip7702_gas_refund,
+        )? {
+            result_gas = reserve_result_gas;
+        }
+        self.beneficiary_mode.apply::<EVM, ERROR>(evm, exec_result, &self.deferred_reward)?;""", """        self.beneficiary_mode.apply::<EVM, ERROR>(evm, exec_result, &self.deferred_reward)?;
+        if let Some(reserve_result_gas) = self.enforce_reserve(
+            evm,
+            exec_result,
+            execution_gas,
+            init_and_floor_gas,
+            eip7702_gas_refund,
+        )? {
+            result_gas = reserve_result_gas;
+        }"""),
+], ['|H1|'])
+mutant('H1-checkpoint-before-auth-list', ['C13'], [
+    (HD, "        let eip7702_refund = self.apply_eip7702_auth_list(evm, init_and_floor_gas)?;\n\n        debug_assert!(self.execution_checkpoint.get().is_none());\n        self.execution_checkpoint.set(Some(evm.ctx().journal_mut().checkpoint()));\n", "        debug_assert!(self.execution_checkpoint.get().is_none());\n        self.execution_checkpoint.set(Some(evm.ctx().journal_mut().checkpoint()));\n        let eip7702_refund = self.apply_eip7702_auth_list(evm, init_and_floor_gas)?;\n"),
+], ['|H1|'])
+mutant('H2-no-nonce-rebump-for-create', ['C13'], [
+    (HD, "            if recreate_sender_nonce {\n                reapply_create_sender_nonce::<EVM, ERROR>(evm)?;\n            }\n", "            let _ = recreate_sender_nonce;\n"),
+], ['|H2|'])
+mutant('H2-no-second-reimbursement', ['C13'], [
+    (HD, "            self.eip7623_check_gas_floor(evm, exec_result, init_and_floor_gas);\n            self.reimburse_caller(evm, exec_result)?;\n            return Ok(Some(result_gas))", "            self.eip7623_check_gas_floor(evm, exec_result, init_and_floor_gas);\n            return Ok(Some(result_gas))"),
+], ['|H2|'])
+mutant('H3-max-instead-of-min', ['C13'], [
+    (HD, "let required = candidate.balance_before.min(future_cost);", "let required = candidate.balance_before.max(future_cost);"),
+], ['|H3|'])
+mutant('H3-le-instead-of-lt', ['C13'], [
+    (HD, "if candidate.final_balance < required {", "if candidate.final_balance <= required {"),
+], ['|H3|'])
+mutant('H5-required-after-includes-current', ['C13'], [
+    (RS, "        match self.txids.partition_point(|candidate| *candidate <= txid) {", "        match self.txids.partition_point(|candidate| *candidate < txid) {"),
+], ['|H5|'])
+mutant('H4-last-debit-kept', ['C13'], [
+    (RS, "                first_debit.entry(source).or_insert(entry_index);", "                first_debit.insert(source, entry_index);"),
+], ['|H4|'])
+mutant('H4-root-transfer-not-excluded', ['C13'], [
+    (RS, "            if root_value_pending && is_root_value_transfer(entry, tx) {", "            if false && root_value_pending && is_root_value_transfer(entry, tx) {"),
+], ['|H4|'])
